@@ -16,6 +16,7 @@ package coroutines
 
 //@ func CompletePromise
 //@ props C01 C02 C03 C04
+//@ serves C06
 //@ ghostdb coroutine
 //@ nopanic C13
 //@ requires c != nil && r != nil && r.CompletePromise != nil
@@ -28,19 +29,34 @@ package coroutines
 
 //@ func createPromiseAndTask
 //@ props C01 C02 C03 C04 C08
+//@ serves C06
 //@ ghostdb coroutine
 //@ nopanic C13
 //@ requires c != nil && r != nil && createPromiseReq != nil
 //@ requires r.Kind == t_api.CreatePromise || r.Kind == t_api.CreatePromiseAndTask
 //@ requires r.Kind == t_api.CreatePromiseAndTask ==> taskCmd != nil
 //@ requires taskCmd != nil ==> taskCmd.Mesg != nil && taskCmd.State == task.Claimed && taskCmd.ProcessId != nil
+//@ requires taskCmd != nil ==> taskCmd.Mesg.Root == createPromiseReq.Id
 //@ ensures (res != nil) != (err != nil)
 //@ ensures err == nil ==> res.Kind == r.Kind
 //@ ensures err == nil && r.Kind == t_api.CreatePromise ==> res.CreatePromise != nil && create_post(res.CreatePromise.Status, res.CreatePromise.Promise, createPromiseReq)
 //@ ensures err == nil && r.Kind == t_api.CreatePromiseAndTask ==> res.CreatePromiseAndTask != nil && create_post(res.CreatePromiseAndTask.Status, res.CreatePromiseAndTask.Promise, createPromiseReq)
 
+//@ func CreatePromiseAndTask
+//@ props C08
+//@ serves C06
+//@ ghostdb coroutine
+//@ nopanic C13
+//@ use-contracts createPromiseAndTask
+//@ overflow C07
+//@ requires c != nil && r != nil && r.Kind == t_api.CreatePromiseAndTask && r.CreatePromiseAndTask != nil && r.CreatePromiseAndTask.Promise != nil && r.CreatePromiseAndTask.Task != nil
+//@ requires r.CreatePromiseAndTask.Promise.Id == r.CreatePromiseAndTask.Task.PromiseId && r.CreatePromiseAndTask.Promise.Timeout == r.CreatePromiseAndTask.Task.Timeout
+//@ ensures (res != nil) != (err != nil)
+//@ ensures err == nil ==> res.Kind == t_api.CreatePromiseAndTask && res.CreatePromiseAndTask != nil
+
 //@ func CreatePromise
 //@ props C01 C02 C03 C04 C08
+//@ serves C06
 //@ ghostdb coroutine
 //@ nopanic C13
 //@ requires c != nil && r != nil && r.CreatePromise != nil && r.Kind == t_api.CreatePromise
@@ -167,6 +183,7 @@ package coroutines
 
 //@ func TimeoutPromises$1
 //@ props C01 C04 C05 C08
+//@ serves C06
 //@ ghostdb coroutine
 //@ nopanic C13
 //@ requires c != nil && config != nil && tags != nil
@@ -194,6 +211,7 @@ package coroutines
 
 //@ func SchedulePromises$1
 //@ props C01 C08 C10
+//@ serves C06
 //@ ghostdb coroutine
 //@ nopanic C13
 //@ overflow C10
@@ -204,6 +222,7 @@ package coroutines
 
 //@ func completePromise$1
 //@ props C01 C04 C05 C08
+//@ serves C06
 //@ ghostdb coroutine
 //@ nopanic C13
 //@ requires c != nil && cmd != nil && cmd.Value.Headers != nil && cmd.Value.Data != nil
@@ -213,10 +232,12 @@ package coroutines
 
 //@ func createPromise$1
 //@ props C01 C08 C10
+//@ serves C06
 //@ ghostdb coroutine
 //@ nopanic C13
 //@ requires c != nil && promiseCmd != nil && promiseCmd.Param.Headers != nil && promiseCmd.Param.Data != nil && promiseCmd.Tags != nil
 //@ requires taskCmd != nil ==> taskCmd.Mesg != nil && (taskCmd.State == task.Init || taskCmd.State == task.Claimed) && (taskCmd.State != task.Claimed || taskCmd.ProcessId != nil)
+//@ requires taskCmd != nil ==> taskCmd.Mesg.Root == promiseCmd.Id
 //@ ensures [await C08 C10] err == nil ==> result0 != nil && result0.Store != nil && len(result0.Store.Results) >= 1 && result0.Store.Results[0] != nil
 //@ ensures [await C08 C10] err == nil ==> (result0.Store.Results[0].Kind == t_aio.CreatePromise && result0.Store.Results[0].CreatePromise != nil) || (result0.Store.Results[0].Kind == t_aio.CreatePromiseAndTask && result0.Store.Results[0].CreatePromiseAndTask != nil)
 //@ ensures [await C08 C10] err != nil ==> result0 == nil
